@@ -34,6 +34,7 @@ func (o *ndjson) emit(v any) {
 	b = bytes.ReplaceAll(b, []byte(":null"), []byte(":[]"))
 	o.w.Write(b)
 	o.w.WriteByte('\n')
+	o.w.Flush() // every line reaches the file at once: if the code under test takes the process down, the trace up to there remains
 	o.n++
 }
 
